@@ -191,12 +191,14 @@ mod bits {
 
     /// Checks that a value is a valid boolean (either true or false).
     #[inline(always)]
+    #[cfg_attr(kani, kani::ensures(|r| *r == super::verif_kani::s_is_bool(value)))]
     pub(super) const fn is_bool(value: u64) -> bool {
         value & MASK_KIND == MASK_BOOLEAN
     }
 
     /// Checks that a value is a valid float, not a tagged nan boxed value.
     #[inline(always)]
+    #[cfg_attr(kani, kani::ensures(|r| *r == super::verif_kani::s_is_float(value)))]
     pub(super) const fn is_float(value: u64) -> bool {
         (value & MASK_NAN != MASK_NAN)
             || (value & MASK_KIND) == (MASK_NAN | TAG_INF)
@@ -205,42 +207,49 @@ mod bits {
 
     /// Checks that a value is a negative zero (`-0`).
     #[inline(always)]
+    #[cfg_attr(kani, kani::ensures(|r| *r == (value == 0x8000_0000_0000_0000)))]
     pub(super) const fn is_negative_zero(value: u64) -> bool {
         value == VALUE_NEGATIVE_ZERO
     }
 
     /// Checks that a value is a valid integer32.
     #[inline(always)]
+    #[cfg_attr(kani, kani::ensures(|r| *r == super::verif_kani::s_is_int32(value)))]
     pub(super) const fn is_integer32(value: u64) -> bool {
         value & MASK_KIND == MASK_INT32
     }
 
     /// Checks that a value is a valid `BigInt`.
     #[inline(always)]
+    #[cfg_attr(kani, kani::ensures(|r| *r == super::verif_kani::s_is_bigint(value)))]
     pub(super) const fn is_bigint(value: u64) -> bool {
         value & MASK_KIND == MASK_BIGINT
     }
 
     /// Checks that a value is a valid Object.
     #[inline(always)]
+    #[cfg_attr(kani, kani::ensures(|r| *r == super::verif_kani::s_is_object(value)))]
     pub(super) const fn is_object(value: u64) -> bool {
         value & MASK_KIND == MASK_OBJECT
     }
 
     /// Checks that a value is a valid Symbol.
     #[inline(always)]
+    #[cfg_attr(kani, kani::ensures(|r| *r == super::verif_kani::s_is_symbol(value)))]
     pub(super) const fn is_symbol(value: u64) -> bool {
         value & MASK_KIND == MASK_SYMBOL
     }
 
     /// Checks that a value is a valid String.
     #[inline(always)]
+    #[cfg_attr(kani, kani::ensures(|r| *r == super::verif_kani::s_is_string(value)))]
     pub(super) const fn is_string(value: u64) -> bool {
         value & MASK_KIND == MASK_STRING
     }
 
     /// Returns a tagged u64 of a 64-bits float.
     #[inline(always)]
+    #[cfg_attr(kani, kani::ensures(|r| *r == super::verif_kani::s_tag_f64(value)))]
     pub(super) const fn tag_f64(value: f64) -> u64 {
         if value.is_nan() {
             // Reduce any NAN to a canonical NAN representation.
@@ -252,24 +261,28 @@ mod bits {
 
     /// Returns a tagged u64 of a 32-bits integer.
     #[inline(always)]
+    #[cfg_attr(kani, kani::ensures(|r| *r == super::verif_kani::s_tag_i32(value)))]
     pub(super) const fn tag_i32(value: i32) -> u64 {
         value as u64 & MASK_INT32_VALUE | MASK_INT32
     }
 
     /// Returns a i32-bits from a tagged integer.
     #[inline(always)]
+    #[cfg_attr(kani, kani::ensures(|r| *r == (value & 0xFFFF_FFFF) as u32 as i32))]
     pub(super) const fn untag_i32(value: u64) -> i32 {
         value as i32
     }
 
     /// Returns a tagged u64 of a boolean.
     #[inline(always)]
+    #[cfg_attr(kani, kani::ensures(|r| *r == super::verif_kani::s_tag_bool(value)))]
     pub(super) const fn tag_bool(value: bool) -> u64 {
         value as u64 | MASK_BOOLEAN
     }
 
     /// Returns a boolean from a tagged value.
     #[inline(always)]
+    #[cfg_attr(kani, kani::ensures(|r| *r == (value & 1 == 1)))]
     pub(super) const fn untag_bool(value: u64) -> bool {
         value & MASK_BOOLEAN_VALUE != 0
     }
@@ -303,10 +316,15 @@ mod bits {
 
     /// Returns the pointer address of the inner value.
     #[inline(always)]
+    #[cfg_attr(kani, kani::ensures(|r| *r == (value & 0x0000_FFFF_FFFF_FFFF) as usize))]
     pub(super) const fn untag_pointer(value: u64) -> usize {
         (value & MASK_POINTER_VALUE) as usize
     }
 }
+
+#[cfg(kani)]
+#[path = "/verif/kani/engine/nan_boxed.rs"]
+mod verif_kani;
 
 // Verify that all const values and masks are nan.
 const_assert!(f64::from_bits(bits::VALUE_UNDEFINED).is_nan());
